@@ -176,6 +176,30 @@ class CCFGBuilder:
             g.edge(j, k.cont)
             return j
         if kind == "ReturnStmt":
+            # `return <boolean expression>;` in an int function is the two
+            # returns 1 / 0 under the outcomes of the expression (so that a
+            # predicate written as one expression has the same atomic tests
+            # as its if/else spelling)
+            e = strip(s.ch[0]) if s.ch else None
+            ft = ((self.func.type or "").split("(")[0]).strip()
+            if e is not None and ft in ("int", "static int") and (
+                    (e.kind == "BinaryOperator" and e.op in (
+                        "&&", "||", "==", "!=", "<", "<=", ">", ">="))
+                    or (e.kind == "UnaryOperator" and e.op == "!")):
+                from .cfacts import CNode
+                rets = []
+                for v in ("1", "0"):
+                    lit = CNode("IntegerLiteral")
+                    lit.value = v
+                    lit.line = s.line
+                    lit.type = "int"
+                    r = CNode("ReturnStmt")
+                    r.line = s.line
+                    r.ch = [lit]
+                    n = g.new("return", r, s.line)
+                    g.edge(n, g.exit)
+                    rets.append(n)
+                return self.cond(s.ch[0], rets[0], rets[1])
             n = g.new("return", s, s.line)
             g.edge(n, g.exit)
             return n
